@@ -124,6 +124,15 @@ func rename(segs []string) string {
 	for i, s := range segs {
 		if s == "{}" {
 			out[i] = fmt.Sprintf("{p%d}", n)
+			// placeholder names are the description's business: dots, colons and non-ASCII letters occur (r9)
+			switch (len(segs) + i) % 5 {
+			case 1:
+				out[i] = fmt.Sprintf("{user.id%d}", n)
+			case 3:
+				out[i] = fmt.Sprintf("{order:no%d}", n)
+			case 4:
+				out[i] = fmt.Sprintf("{größe%d}", n)
+			}
 			n++
 		} else {
 			out[i] = s
